@@ -333,6 +333,23 @@ theorem C06_request_terminates (s : St) (a k : Int) :
   · intro hk
     simp [requestNumber, hk]
 
+/-- **C06_request_first** — `request_number(start, step)` offers the FIRST number of the walk
+    `start, start+step, start+2·step, …` that no member has: every candidate it passed over is the current
+    number of a member, and the offered one is not (no invariant needed; whatever the cache holds). -/
+theorem C06_request_first (s : St) (a k n : Int) (h : (requestNumber s a k).2 = .int n) :
+    ∃ j : Nat, n = a + j * k ∧ (∀ i : Nat, i < j → a + i * k ∈ s.objs.map s.num) ∧ n ∉ s.objs.map s.num := by
+  obtain ⟨j, hj, hall⟩ := requestNumber_first h
+  exact ⟨j, hj, hall, requestNumber_free h⟩
+
+/-- **C06_offer_ignores_cache** — what `request_number`, `next_number` and `check_number` answer is a function
+    of the members and their current numbers: two states that differ at most in the number cache (`Core`:
+    same members, numbers, links) get the same answers. A number assignment changes `num` and leaves the cache
+    behind; this theorem is why the next request cannot notice (seeded C06e answered from the cache). -/
+theorem C06_offer_ignores_cache (s s' : St) (hc : Core s s') (a k n : Int) :
+    (requestNumber s' a k).2 = (requestNumber s a k).2 ∧ (nextNumber s' k).2 = (nextNumber s k).2 ∧
+    (checkNumber s' n).2 = (checkNumber s n).2 :=
+  ⟨requestNumber_cache_indep hc a k, nextNumber_cache_indep hc k, checkNumber_cache_indep hc n⟩
+
 /-- **C06_conflict_noop** — an operation that raises `NumberConflictError` leaves the members, their
     order and every member's number as they were; with `C06_get` (look-ups are a function of members
     and numbers under `Inv`, which `C06_step` preserves) every look-up answers as before. -/
@@ -463,6 +480,11 @@ example : (step exState (.extend [11, 12])).2 = .err .numberConflict := by decid
 /-- … `request_number` really offers numbers and really skips taken ones … -/
 example : (requestNumber exState 1 1).2 = .int 3 := by decide
 example : (nextNumber exState 5).2 = .int 7 := by decide
+/-- … the hypothesis of `C06_offer_ignores_cache` is met by states whose caches really differ (an empty cache, and the
+    cache a number assignment leaves behind: member 7 renumbered 2 → 5 is still cached under 2) … -/
+example : Core exState { exState with cache := [] } := ⟨rfl, rfl, rfl, rfl⟩
+example : (step (step exState (.get 2)).1 (.setNumber 7 5)).1.cache = [(9, 7), (1, 4), (2, 7)] := by decide
+example : (requestNumber (step (step exState (.get 2)).1 (.setNumber 7 5)).1 5 1).2 = .int 6 := by decide
 /-- … and the free-standing partial theorem has admissible non-trivial histories. -/
 example : AdmissibleRun { exState with owned := false, link := fun _ => false }
     [.append 9, .pop 0, .setNumber 4 2, .extend [4]] := by
